@@ -100,7 +100,8 @@ PROPS = {
     ),
     "C12": dict(
         facts=True,
-        families=[dict(name="lock")],
+        families=[dict(name="lock"), dict(name="prestate", args=["-specs", "13"]), dict(name="hostile", args=["-specs", "13"]),
+                  dict(name="pipe", args=["-specs", "13"])],
         level_text="Theorems C12_mutex, C12_refused_clean, C12_released, C12_quiescent_unlocked, C12_bounded over a "
                    "transition system of any number of dud processes with arbitrary interleaving (atomic O_EXCL acquire, "
                    "release of the path that was locked, pull's unlock/relock, config get/set without chdir), plus "
